@@ -374,6 +374,32 @@ pub fn run(cfg: &RunCfg) -> CheckReport {
     let letters: Vec<&[u8]> = letters.iter().map(|v| &v[..]).collect();
     let ex = explore_alphabet(cfg, &letters, l);
     rep.part("bytes", json!({"alphabet": BYTES, "max_len": l}), ex);
+    if rep.has_violation() {
+        return rep;
+    }
+    // enumerated rich corpus: every concatenation of up to k atoms (other scripts, ZWJ emoji,
+    // flags, every separator, invalid sequences of 1-8 bytes)
+    let k = cfg.tier.pick(3, 4);
+    let texts = super::richtext::atom_texts(k);
+    let chunk = 256;
+    let nsh = (texts.len() + chunk - 1) / chunk;
+    let ex = explore(cfg, nsh, |shard, acc| {
+        for text in &texts[shard * chunk..((shard + 1) * chunk).min(texts.len())] {
+            match check_bytes(text) {
+                Ok((nt, ntok, fp)) => {
+                    if acc.want_sample() {
+                        acc.sample(json!({"bytes": text, "lossy": String::from_utf8_lossy(text)}));
+                    }
+                    acc.ok(nt, ntok, fp);
+                }
+                Err(e) => acc.violation(|| (json!({"bytes": text, "lossy": String::from_utf8_lossy(text)}), e)),
+            }
+            if acc.stop() {
+                return;
+            }
+        }
+    });
+    rep.part("rich-corpus", json!({"atoms": super::richtext::atoms().len(), "max_atoms_per_text": k, "texts": texts.len(), "note": "enumerated family, not exhaustive"}), ex);
     rep
 }
 
